@@ -171,6 +171,19 @@ def _fsm_cells(ck, fx, hb):
                 sorted((list(ws), a, fmt_term(f) if isinstance(f, tuple) else f) for ws, a, f in got), fails,
                 "always fails" if want is None else sorted((list(ws), a, fmt_term(f)) for ws, a, f in want)))
     ck.floor("R15.fsm", "cells", n_cells, 14)
+    # the scan is not bypassed: every successful path of eval_print runs the loop over the format's characters
+    try:
+        ex2, paths2, err2 = V.handler_paths(fx, "eval_print")
+    except Exception as e2:  # noqa
+        paths2, err2 = None, str(e2)
+    if paths2:
+        oks = V.ok_paths(paths2)
+        skipping = [p for p in oks if not any(e["k"] == "foreach" and "chars(" in fmt_term(e["args"][0]) for e in V._all_effects(p["eff"]))]
+        ck.ob("R15.fsm", "every successful print scans its format", bool(oks) and not skipping, loc(loop),
+              "%d successful path(s) of eval_print, %d of them without the scanning loop%s" % (
+                  len(oks), len(skipping), "" if not skipping else " — such a print emits text that was never interpreted (placeholders, escapes, argument count)"))
+    else:
+        ck.ob("R15.fsm", "every successful print scans its format", False, loc(loop), "cannot enumerate the paths of eval_print (unprovable): %s" % err2)
     ck.ob("R15.fsm", "scans format.chars() in order", True, loc(loop), "for-loop over the format's Unicode scalar values in %s" % sb["path"], nontrivial=False)
     return True
 
@@ -467,5 +480,14 @@ def _lexer(ck, fx):
     raw_ok = accepts(t["pattern"], '"a\na"') and accepts(t["pattern"], '"é"') and not accepts(t["pattern"], '"a"a"')
     ck.ob("R15.lexer", "any other character (incl. newline, non-ASCII) is admitted raw; an unescaped quote ends the literal", raw_ok, "", "raw characters accepted: %s" % raw_ok)
     r = g.rules.get("String")
-    ok = bool(r) and len(r.alts) == 1 and "".join(r.alts[0].action.split()) == "s[1..s.len()-1].to_string()"
-    ck.ob("R15.lexer", "String action strips only the quotes", ok, "src/fml.lalrpop:%s" % (r.line if r else "?"), "escapes stay raw for the VM: %s" % ok)
+    # what the String alternative builds, from its type-checked action: the token's text without its first and last character
+    from . import c07_actions as CA
+    ok = bool(r) and len(r.alts) == 1
+    built = "?"
+    if ok:
+        per, probs = CA.alt_values(fx, g, "String", r.alts[0])
+        vs = set().union(*per.values()) if per else set()
+        built = " or ".join(sorted(CA.show(v) for v in vs)) or "; ".join(probs)
+        ok = not probs and vs == {CA._freeze(("strip_quotes", CA.P(0)))}
+    ck.ob("R15.lexer", "String action strips only the quotes", ok, "src/fml.lalrpop:%s" % (r.line if r else "?"),
+          "the literal denotes %s — escapes stay raw for the VM: %s" % (built, ok))
